@@ -329,8 +329,57 @@ func (w *c06Worker) run(res *runner.CaseResult, idx int, replay *sim.History, cf
 	}
 }
 
+// c06EmptyVector builds a history INSIDE the precondition of recorded finding F-SNAPVV-EMPTY:
+// every client opts out of garbage collection (no version-vector row exists), snapshots are
+// stored meanwhile (with an empty vector) and served from the store, not the cache; then a
+// fresh client attaches, is fed by such a snapshot and edits. What the finding explains - the
+// newcomer's vector lacks earlier actors (clock-not-causal) - is counted; every other clause
+// (lamport strictly newer than everything applied, own entry, uniqueness in the log) is judged.
+func c06EmptyVector(seed int64, idx int) sim.History {
+	rng := caseRng(seed^0xc06e, idx)
+	h := sim.History{Cfg: sim.WorldCfg{Snap: int64(2 + rng.Intn(2)), ColdCache: true}}
+	h.Steps = append(h.Steps, sim.Step{T: "attach", R: 0, WireNoGC: true}, sim.Step{T: "attach", R: 1, WireNoGC: true},
+		sim.Step{T: "edit", R: 0, E: gen.InitEdits()}, sim.Step{T: "sync", R: 0}, sim.Step{T: "sync", R: 1})
+	set := func(r int, k string) sim.Step {
+		return sim.Step{T: "edit", R: r, E: []gen.Edit{{Op: "obj.set", K: k, V: &gen.Val{T: "str", S: fmt.Sprintf("v%d", rng.Intn(100))}}}}
+	}
+	for k := 3 + rng.Intn(5); k > 0; k-- {
+		r := rng.Intn(2)
+		h.Steps = append(h.Steps, set(r, []string{"a", "b", "c"}[rng.Intn(3)]), sim.Step{T: "sync", R: r})
+	}
+	h.Steps = append(h.Steps, sim.Step{T: "quiesce"})
+	if rng.Intn(2) == 0 {
+		// the last clients leave: the detach is the push that crosses the snapshot interval
+		h.Steps = append(h.Steps, sim.Step{T: "detach", R: 0}, sim.Step{T: "detach", R: 1})
+	}
+	h.Steps = append(h.Steps, sim.Step{T: "attach", R: 2, WireNoGC: rng.Intn(2) == 0})
+	for k := 1 + rng.Intn(3); k > 0; k-- {
+		h.Steps = append(h.Steps, set(2, []string{"a", "b", "c"}[rng.Intn(3)]), sim.Step{T: "sync", R: 2})
+	}
+	h.Steps = append(h.Steps, sim.Step{T: "quiesce"})
+	return h
+}
+
 func (w *c06Worker) Run(idx int) runner.CaseResult {
 	res := runner.CaseResult{Case: fmt.Sprintf("c06-%d", idx)}
+	if idx%20 == 19 {
+		h := c06EmptyVector(w.seed, idx)
+		var inner runner.CaseResult
+		w.run(&inner, idx, &h, h.Cfg, sim.GenCfg{})
+		res = inner
+		res.Case = fmt.Sprintf("c06-%d", idx)
+		res.Viol = nil
+		for _, v := range inner.Viol {
+			if v.Kind == "clock-not-causal" {
+				res.AddStat("empty_vector_family_attributed_to_F-SNAPVV-EMPTY", 1)
+				continue
+			}
+			res.Viol = append(res.Viol, v)
+		}
+		res.AddStat("empty_vector_family_cases", 1)
+		res.AddStat("empty_vector_family_snapshot_pulls", inner.Stats["snapshot_pulls"])
+		return res
+	}
 	g, cfg := c06Cfg(w.tier, w.seed, idx)
 	w.run(&res, idx, nil, cfg, g)
 	return res
